@@ -293,6 +293,27 @@ fn cmd_check_inner(m: &HashMap<String, String>) -> i32 {
         exit = EXIT_VIOLATION;
     }
 
+    // 5b. the Miri pass (thorough tier; run by ./check before this process, handed over as a file)
+    let miri_summary: J = match m.get("miri-summary") {
+        Some(p) => match std::fs::read_to_string(p).map_err(|e| e.to_string()).and_then(|t| json::parse(&t)) {
+            Ok(j) => j,
+            Err(e) => {
+                eprintln!("harness error: cannot read the Miri summary {}: {}", p, e);
+                return EXIT_HARNESS;
+            }
+        },
+        None => J::s("not run in this tier"),
+    };
+    if let Some(v) = miri_summary.get("violation") {
+        if let Some(rp) = v.get("replay").and_then(|x| x.as_str()) {
+            println!("Miri pass: {}", v.get("diagnostic").and_then(|x| x.as_str()).unwrap_or("error"));
+            if exit == EXIT_OK {
+                println!("VIOLATION property=C18 replay={}", rp);
+                exit = EXIT_VIOLATION;
+            }
+        }
+    }
+
     // 6. evidence
     let wall = t0.elapsed().as_secs_f64();
     let st = &res.stats;
@@ -360,6 +381,7 @@ fn cmd_check_inner(m: &HashMap<String, String>) -> i32 {
                 ])),
             ]),
         ),
+        ("miri_pass", miri_summary),
         ("known_findings_seen", J::Arr(known_lines.iter().map(|l| J::s(l.clone())).collect())),
         ("violation", viol_json),
     ]);
@@ -415,6 +437,48 @@ fn cmd_replay(pos: &[String], m: &HashMap<String, String>) -> i32 {
         }
     };
     let quiet = m.contains_key("quiet");
+    if rf.class == tok::V12_MIRI_UB {
+        // recorded by the Miri executor: re-interpret the history under Miri
+        let simdir = self_exe().parent().and_then(|p| p.parent()).and_then(|p| p.parent()).map(|p| p.to_path_buf()).unwrap_or_else(|| "/verif/sim".into());
+        let abs = std::fs::canonicalize(path).map(|p| p.to_string_lossy().to_string()).unwrap_or_else(|_| path.clone());
+        let out = Command::new("cargo")
+            .args(["+nightly", "miri", "run", "--offline", "--", "miri", &abs])
+            .current_dir(&simdir)
+            .env("MIRIFLAGS", "-Zmiri-disable-isolation")
+            .env("CARGO_NET_OFFLINE", "true")
+            .output();
+        return match out {
+            Ok(o) => {
+                let err = String::from_utf8_lossy(&o.stderr).to_string();
+                let so = String::from_utf8_lossy(&o.stdout).to_string();
+                if !quiet {
+                    println!("replaying {} under Miri (container {}, {} operations)", path, kind_name(rf.plan.kind), rf.plan.ops.len());
+                    for l in so.lines().chain(err.lines().filter(|l| !l.trim_start().starts_with("Compiling") && !l.trim_start().starts_with("Finished") && !l.trim_start().starts_with("Running"))).take(80) {
+                        println!("{}", l);
+                    }
+                }
+                if err.contains("Undefined Behavior") || err.contains("memory leaked") {
+                    println!("reproduced: Miri reports an error while interpreting this history");
+                    println!("VIOLATION property=C18 replay={}", path);
+                    EXIT_VIOLATION
+                } else if o.status.code() == Some(EXIT_VIOLATION) {
+                    println!("reproduced: the history is flagged by the ledger while being interpreted under Miri");
+                    println!("VIOLATION property=C18 replay={}", path);
+                    EXIT_VIOLATION
+                } else if o.status.success() {
+                    println!("not reproduced: Miri interprets the recorded history without error on this tree");
+                    EXIT_OK
+                } else {
+                    eprintln!("harness error: Miri replay failed for another reason:\n{}", err);
+                    EXIT_HARNESS
+                }
+            }
+            Err(e) => {
+                eprintln!("harness error: cannot start cargo miri: {}", e);
+                EXIT_HARNESS
+            }
+        };
+    }
     if rf.class == tok::V11_ABNORMAL_TERMINATION {
         // the recorded failure kills the process: re-execute in a child
         let errf = std::env::temp_dir().join(format!("vek-sim-replay-{}.err", std::process::id()));
@@ -504,6 +568,13 @@ fn cmd_gen(m: &HashMap<String, String>) -> i32 {
     let seed = get_u64(m, "seed", 1);
     let run = get_u64(m, "run", 0);
     let p = gen::gen_plan(seed, run);
+    if m.contains_key("miri") {
+        match miri_sanitise(&p) {
+            Some(q) => print!("{}", plan_to_json(&q).pretty()),
+            None => print!("null"),
+        }
+        return EXIT_OK;
+    }
     print!("{}", plan_to_json(&p).pretty());
     EXIT_OK
 }
@@ -547,6 +618,108 @@ fn cmd_exec_plan(pos: &[String], m: &HashMap<String, String>) -> i32 {
     }
 }
 
+/// Second executor (thorough tier): the same plans, interpreted by Miri, single-threaded, no
+/// files, no child processes. Under `cfg(miri)` every `Tok` owns a heap cell, so a read after
+/// move, a double drop or an out-of-bounds read is a language-level error reported by Miri
+/// itself, independently of the ledger. Plans are sanitised first: operations whose *intended*
+/// effect is a leak (forget, drop-panic) are replaced by their leak-free form so that Miri's
+/// leak check can stay on, and plans that go through the matrix array conversions are skipped
+/// (they `mem::replace` into uninitialised storage, which Miri rejects for a reason that is
+/// outside C18 — DESIGN.md 3.12).
+fn miri_sanitise(p: &Plan) -> Option<Plan> {
+    let mut q = p.clone();
+    for op in q.ops.iter_mut() {
+        match op.k {
+            OpK::MFromFlat | OpK::MFromNested | OpK::MIntoFlat | OpK::MIntoNested => return None,
+            OpK::Forget => *op = Op::new(OpK::Drop),
+            OpK::Drop | OpK::TakeCount | OpK::RevTakeDrop => op.f = 0,
+            _ => {}
+        }
+    }
+    Some(q)
+}
+
+fn cmd_miri(m: &HashMap<String, String>, pos: &[String]) -> i32 {
+    use std::io::Write;
+    if let Some(path) = pos.first() {
+        // replay of one plan file under Miri
+        let txt = match std::fs::read_to_string(path) {
+            Ok(t) => t,
+            Err(e) => {
+                eprintln!("{}", e);
+                return EXIT_HARNESS;
+            }
+        };
+        let plan = match json::parse(&txt).and_then(|j| plan_from_json(&j)) {
+            Ok(p) => p,
+            Err(e) => {
+                eprintln!("{}", e);
+                return EXIT_HARNESS;
+            }
+        };
+        let mut st = Stats::new();
+        let o = run::execute(&plan, &mut st, true);
+        for l in &o.trace {
+            println!("{}", l);
+        }
+        return match &o.violation {
+            Some(v) => {
+                println!("violation {} step {} : {}", tok::class_name(v.class), v.step as i64, v.detail);
+                EXIT_VIOLATION
+            }
+            None => {
+                println!("clean");
+                EXIT_OK
+            }
+        };
+    }
+    let seed = get_u64(m, "seed", 1);
+    let start = get_u64(m, "start", 0);
+    let count = get_u64(m, "count", 16);
+    let max_dim = get_u64(m, "max-dim", 64) as usize;
+    let mut st = Stats::new();
+    let (mut done, mut skipped) = (0u64, 0u64);
+    let out = std::io::stdout();
+    for run in start..start + count {
+        let plan = gen::gen_plan(seed, run);
+        let plan = match miri_sanitise(&plan) {
+            Some(p) if kind_dim(p.kind) <= max_dim || p.kind >= N_VEC_KINDS => p,
+            _ => {
+                skipped += 1;
+                continue;
+            }
+        };
+        {
+            let mut o = out.lock();
+            let _ = writeln!(o, "RUN {}", run);
+            let _ = o.flush();
+        }
+        let o = run::execute(&plan, &mut st, false);
+        if let Some(e) = &o.harness_error {
+            println!("HARNESS-ERROR run {}: {}", run, e);
+            return EXIT_HARNESS;
+        }
+        if let Some(v) = &o.violation {
+            println!("LEDGER-VIOLATION run {} {} step {} : {}", run, tok::class_name(v.class), v.step as i64, v.detail);
+            return EXIT_VIOLATION;
+        }
+        done += 1;
+    }
+    println!(
+        "MIRI-SUMMARY seed={} start={} count={} executed={} skipped={} steps={} drops={} touches={} panics_fired={}",
+        seed,
+        start,
+        count,
+        done,
+        skipped,
+        st.ops_exec,
+        st.callbacks_drop,
+        st.callbacks_touch,
+        st.fault_fired[F_OBSERVE_PANIC] + st.fault_fired[F_DEFAULT_PANIC] + st.fault_fired[F_SOURCE]
+    );
+    EXIT_OK
+}
+
 fn main() {
     exec::install_panic_hook();
     let args: Vec<String> = std::env::args().skip(1).collect();
@@ -561,6 +734,7 @@ fn main() {
         "digest" => cmd_digest(&m),
         "gen" => cmd_gen(&m),
         "exec-plan" => cmd_exec_plan(&pos, &m),
+        "miri" => cmd_miri(&m, &pos),
         other => {
             eprintln!("unknown command {}", other);
             EXIT_HARNESS
